@@ -159,6 +159,7 @@ func loadEngine(repo string, patterns []string) (*Engine, error) {
 			"github.com/lightningnetwork/lnd/lnrpc":           true,
 			"github.com/lightningnetwork/lnd/lnrpc/routerrpc": true,
 			"github.com/elementsproject/glightning/glightning": true,
+			"github.com/btcsuite/btcd/wire":                    true,
 		}}
 	packages.Visit(pkgs, nil, func(p *packages.Package) {
 		e.byPath[p.PkgPath] = p
